@@ -22,9 +22,16 @@ import (
 	"verifharness/sim"
 
 	ipfslog "berty.tech/go-ipfs-log"
+	"berty.tech/go-ipfs-log/entry"
+	"berty.tech/go-ipfs-log/identityprovider"
 	orbitdb "berty.tech/go-orbit-db"
 	"berty.tech/go-orbit-db/accesscontroller"
+	"berty.tech/go-orbit-db/address"
 	"berty.tech/go-orbit-db/iface"
+	"berty.tech/go-orbit-db/stores/basestore"
+	"berty.tech/go-orbit-db/stores/documentstore"
+	"berty.tech/go-orbit-db/stores/eventlogstore"
+	"berty.tech/go-orbit-db/stores/kvstore"
 	"berty.tech/go-orbit-db/stores/operation"
 	cid "github.com/ipfs/go-cid"
 	datastore "github.com/ipfs/go-datastore"
@@ -41,6 +48,7 @@ import (
 	"github.com/libp2p/go-libp2p/core/crypto"
 	"github.com/libp2p/go-libp2p/core/peer"
 	mocknet "github.com/libp2p/go-libp2p/p2p/net/mock"
+	multihash "github.com/multiformats/go-multihash"
 )
 
 func init() { drivers["C18"] = driver{"C18", runC18} }
@@ -81,6 +89,16 @@ const (
 	whenDropped      = 9 // after Drop
 	whenRealNet      = 10
 	whenMidFetch     = 11 // a replication worker is inside a block fetch that then SUCCEEDS (as kubo does for a block it finds locally, whatever the context)
+	// 12..15: replication workers inside a block fetch that NEVER completes (a block nobody
+	// provides: the fetch only ends with its context), by the route that fed the replicator
+	whenStuckSync      = 12 // Sync (what the topic listener and the direct-channel monitor call)
+	whenStuckLoadMore  = 13 // LoadMoreFrom, still running on its caller's goroutine
+	whenStuckSnapshot  = 14 // the saved queue of LoadFromSnapshot
+	whenStuckAncestors = 15 // the missing ancestors an unlimited Load hands to the replicator
+	whenDropStuck      = 16 // right after Drop (instance still open), LoadMoreFrom in flight or idle
+	whenInstanceStuck  = 17 // instance Close, databases of mixed configurations, fetches in flight
+	whenLoadStuck      = 18 // Load itself inside a block fetch that never completes
+	whenSnapStuck      = 19 // LoadFromSnapshot inside a fetch of the snapshot file that never completes
 )
 
 // operations invoked on a closed store (CAfterClose.op); numbers are shared with Model/Lifecycle.v
@@ -123,7 +141,10 @@ const (
 	opInflightPersist // write parked after cache write
 	opInflightLoad    // Load parked in a fetch
 	opInflightDropWrite
-	opDropStale // Drop through a closed handle after the database was opened again on the instance
+	opDropStale             // Drop through a closed handle after the database was opened again on the instance
+	opInflightLoadMoreFrom  // LoadMoreFrom running, its workers in a fetch that never completes, when Close/Drop ran
+	opInflightLoadStuck     // Load in a fetch that never completes when Close ran
+	opInflightSnapshotStuck // LoadFromSnapshot in a fetch that never completes when Close ran
 )
 
 var opNames = map[int]string{
@@ -137,7 +158,10 @@ var opNames = map[int]string{
 	opStoreWriteInstClosed: "store write after instance.Close", opStoreReadInstClosed: "store read after instance.Close",
 	opInflightAppend: "write in flight (after append) during Close", opInflightPersist: "write in flight (after cache write) during Close",
 	opInflightLoad: "Load in flight during Close", opInflightDropWrite: "write in flight (after cache write) during Drop",
-	opDropStale: "Drop (stale handle, database open again)",
+	opDropStale:             "Drop (stale handle, database open again)",
+	opInflightLoadMoreFrom:  "LoadMoreFrom in flight (fetch that never completes) during Close/Drop",
+	opInflightLoadStuck:     "Load in a fetch that never completes during Close",
+	opInflightSnapshotStuck: "LoadFromSnapshot in a fetch that never completes during Close",
 }
 
 // creation sites inside go-orbit-db (CClose.leaked_sites); numbers are shared with Model/Lifecycle.v
@@ -162,6 +186,7 @@ var siteTable = []struct {
 	{"pubsub/pubsubcoreapi.(*psTopic).WatchMessages", 15},
 	{"pubsub/oneonone.(*channels).Connect", 16},
 	{"stores/basestore.(*BaseStore).pubSubChanListener.func2", 17},
+	{"stores/basestore.(*BaseStore).LoadFromSnapshot", 18},
 }
 
 const orbitPrefix = "berty.tech/go-orbit-db/"
@@ -371,6 +396,100 @@ type c18Spec struct {
 	NDB        int    `json:"ndb"`
 	Variant    string `json:"variant"`
 	Seed       int64  `json:"seed"`
+	// configuration of the store under test (zero values = the defaults the driver always used)
+	NoRepl  bool     `json:"norepl,omitempty"`  // CreateDBOptions.Replicate = false
+	Mem     bool     `json:"mem,omitempty"`     // the instance's directory is ":memory:"
+	MaxHist int      `json:"maxhist,omitempty"` // NewStoreOptions.MaxHistory (0 = unset), see withMaxHistory
+	Opener  string   `json:"opener,omitempty"`  // "" = opened from its address by a second instance | "creator"
+	Prep    string   `json:"prep,omitempty"`    // "" = written to, never loaded | "never" = opened, nothing else | "load" = Load before the writes
+	Feed    string   `json:"feed,omitempty"`    // stuck: sync | direct | loadmore | loadmore-stub | snapshot | ancestors | load | snapfile
+	Cfgs    []c18Cfg `json:"cfgs,omitempty"`    // iclose: configuration of every database
+	// drop / sameroot: three databases share one manifest root R: "parent" /orbitdb/R/<name>
+	// (created), "deep" /orbitdb/R/archive/<name> and "child" /orbitdb/R/<name>/sub (both opened by
+	// hand-made address).  Shape names the one that is dropped (drop) or closed (sameroot).
+	Shape string `json:"shape,omitempty"`
+}
+
+// c18Cfg mirrors Lifecycle.config.
+type c18Cfg struct {
+	Repl    bool `json:"replicate"`
+	Mem     bool `json:"memory"`
+	Limited bool `json:"limited"`
+}
+
+func (c c18Cfg) coq() string {
+	return fmt.Sprintf("(mkCfg %s %s %s)", sim.CoqBool(c.Repl), sim.CoqBool(c.Mem), sim.CoqBool(c.Limited))
+}
+
+func (sp c18Spec) cfg() c18Cfg { return c18Cfg{Repl: !sp.NoRepl, Mem: sp.Mem, Limited: sp.MaxHist > 0} }
+
+func coqCfgs(cs []c18Cfg) string {
+	var ts []string
+	for _, c := range cs {
+		ts = append(ts, c.coq())
+	}
+	return sim.CoqList(ts)
+}
+
+// dbOpts: the CreateDBOptions of a configuration (a fresh value for every call: Open stores
+// defaults into it).
+func (c c18Cfg) dbOpts(maxHist int, ac *accesscontroller.CreateAccessControllerOptions) *orbitdb.CreateDBOptions {
+	o := &orbitdb.CreateDBOptions{}
+	if ac != nil {
+		o.AccessController = ac
+	}
+	if !c.Repl {
+		f := false
+		o.Replicate = &f
+	}
+	return o
+}
+
+// withMaxHistory runs open() with the store constructors of the instance wrapped so that the
+// store is built with NewStoreOptions.MaxHistory = k.  (CreateDBOptions has no such field: a
+// registered store type is the way the public API offers to get the option onto a store that
+// the instance manages, i.e. one with the instance's cache, CacheDestroy and CloseFunc.)
+func withMaxHistory(odb orbitdb.OrbitDB, k int, open func() (iface.Store, error)) (iface.Store, error) {
+	if k <= 0 {
+		return open()
+	}
+	plain := map[string]iface.StoreConstructor{
+		"eventlog": eventlogstore.NewOrbitDBEventLogStore,
+		"keyvalue": kvstore.NewOrbitDBKeyValue,
+		"docstore": documentstore.NewOrbitDBDocumentStore,
+	}
+	for t, c := range plain {
+		c := c
+		odb.RegisterStoreType(t, func(ipfs coreiface.CoreAPI, id *identityprovider.Identity, addr address.Address, o *iface.NewStoreOptions) (iface.Store, error) {
+			kk := k
+			o.MaxHistory = &kk
+			return c(ipfs, id, addr, o)
+		})
+	}
+	defer func() {
+		for t, c := range plain {
+			odb.RegisterStoreType(t, c)
+		}
+	}()
+	return open()
+}
+
+func (sp c18Spec) dbOpts(ac *accesscontroller.CreateAccessControllerOptions) *orbitdb.CreateDBOptions {
+	return sp.cfg().dbOpts(sp.MaxHist, ac)
+}
+
+const memDir = ":memory:"
+
+// memReplica replaces (or creates) replica idx by an instance whose directory is ":memory:".
+func memReplica(env *sim.Env, idx int, label string) (*sim.Replica, error) {
+	return env.NewReplicaOpts(idx, label, memDir, sim.PeerIDFor(label, idx), nil)
+}
+
+// memDirOnDisk: an instance on ":memory:" must leave nothing on disk; the name is only a
+// table key (and would be a directory relative to the working directory if it ever got used)
+func memDirOnDisk() bool {
+	_, err := os.Stat(memDir)
+	return err == nil
 }
 
 type c18Case struct {
@@ -412,11 +531,40 @@ func c18Plan(r *Run) []c18Spec {
 	if r.Tier == "thorough" {
 		reps = 6
 	}
+	closeWhens := []int{whenIdle, whenAfterAppend, whenAfterPersist, whenAfterDequeue, whenBeforeDone, whenMidLoad, whenMidFetch}
+	needsRemote := func(w int) bool { return w == whenAfterDequeue || w == whenBeforeDone || w == whenMidFetch }
+	// a random configuration for a store-level scenario at moment w (not every moment can be
+	// scripted in every configuration: a Load from the cache needs a cache that outlives its
+	// first handle, the lenient block API of moment 11 is built on an on-disk instance)
+	randomCfg := func(s *c18Spec, w int) {
+		s.NoRepl = r.Rng.Intn(5) < 2
+		if w != whenMidLoad && w != whenMidFetch {
+			s.Mem = r.Rng.Intn(5) == 0
+		}
+		if r.Rng.Intn(4) == 0 {
+			s.MaxHist = 1 + r.Rng.Intn(3)
+		}
+		if r.Rng.Intn(3) == 0 {
+			s.Opener = "creator"
+		}
+		switch r.Rng.Intn(6) {
+		case 0:
+			if w == whenIdle {
+				s.Prep = "never"
+			}
+		case 1, 2:
+			if !s.Mem || s.Opener == "" {
+				s.Prep = "load"
+			}
+		}
+	}
 	for rep := 0; rep < reps; rep++ {
-		// store Close at every moment x (once | twice | concurrently)
-		for _, when := range []int{whenIdle, whenAfterAppend, whenAfterPersist, whenAfterDequeue, whenBeforeDone, whenMidLoad, whenMidFetch} {
+		// store Close at every moment x (once | twice | concurrently), default configuration; the
+		// three modes rotate through the three store types, so that every type is closed at the
+		// moments where the type matters (a write in flight)
+		for wi, when := range closeWhens {
 			for mode := 0; mode < 3; mode++ {
-				s := c18Spec{Kind: "close", When: when, Type: types[r.Rng.Intn(3)], Writes: 1 + r.Rng.Intn(4), Remote: r.Rng.Intn(3)}
+				s := c18Spec{Kind: "close", When: when, Type: types[(mode+wi+rep)%3], Writes: 1 + r.Rng.Intn(4), Remote: r.Rng.Intn(3)}
 				switch mode {
 				case 0:
 					s.Times = 1
@@ -425,33 +573,140 @@ func c18Plan(r *Run) []c18Spec {
 				case 2:
 					s.Times, s.Concurrent = 2+r.Rng.Intn(3), true
 				}
-				if when == whenAfterDequeue || when == whenBeforeDone || when == whenMidFetch {
+				if needsRemote(when) {
 					s.Remote = 1 + r.Rng.Intn(3)
 				}
 				add(s)
 			}
 		}
-		// random extra close scenarios
-		for i := 0; i < 26; i++ {
-			s := c18Spec{Kind: "close", When: []int{whenIdle, whenAfterAppend, whenAfterPersist, whenAfterDequeue, whenBeforeDone, whenMidLoad, whenMidFetch}[r.Rng.Intn(7)], Type: types[r.Rng.Intn(3)], Writes: 1 + r.Rng.Intn(6), Remote: r.Rng.Intn(4),
-				Times: 1 + r.Rng.Intn(4)}
-			s.Concurrent = s.Times > 1 && r.Rng.Intn(2) == 0
-			if s.When == whenAfterDequeue || s.When == whenBeforeDone || s.When == whenMidFetch {
-				s.Remote = 1 + r.Rng.Intn(3)
+		// the same moments on a store opened with Replicate = false; every store type with a write in flight
+		for wi, when := range closeWhens {
+			n := 1
+			if when == whenAfterAppend || when == whenAfterPersist {
+				n = 3
 			}
+			for k := 0; k < n; k++ {
+				s := c18Spec{Kind: "close", When: when, Type: types[(k+wi+rep)%3], Writes: 1 + r.Rng.Intn(4), Remote: r.Rng.Intn(3), NoRepl: true, Times: 1 + r.Rng.Intn(3)}
+				s.Concurrent = s.Times > 1 && r.Rng.Intn(2) == 0
+				if needsRemote(when) {
+					s.Remote = 1 + r.Rng.Intn(3)
+				}
+				add(s)
+			}
+		}
+		// an instance on ":memory:"
+		for wi, when := range []int{whenIdle, whenAfterAppend, whenAfterPersist, whenAfterDequeue} {
+			s := c18Spec{Kind: "close", When: when, Type: types[(wi+rep)%3], Writes: 1 + r.Rng.Intn(4), Remote: 1 + r.Rng.Intn(2), Mem: true, NoRepl: r.Rng.Intn(2) == 0, Times: 1 + r.Rng.Intn(2)}
 			add(s)
 		}
-		// instance Close with several databases
+		// opened by its creator; opened and never touched; MaxHistory
+		for _, when := range []int{whenIdle, whenAfterDequeue, whenMidLoad} {
+			add(c18Spec{Kind: "close", When: when, Type: types[r.Rng.Intn(3)], Writes: 1 + r.Rng.Intn(4), Remote: 1 + r.Rng.Intn(2), Opener: "creator", NoRepl: r.Rng.Intn(2) == 0, Prep: []string{"", "load"}[r.Rng.Intn(2)], Times: 1})
+		}
+		add(c18Spec{Kind: "close", When: whenIdle, Type: types[r.Rng.Intn(3)], Prep: "never", Times: 1})
+		add(c18Spec{Kind: "close", When: whenIdle, Type: types[r.Rng.Intn(3)], Prep: "never", NoRepl: true, Times: 2})
+		add(c18Spec{Kind: "close", When: whenIdle, Type: types[r.Rng.Intn(3)], Prep: "never", Mem: true, Opener: "creator", Times: 1})
+		add(c18Spec{Kind: "close", When: whenIdle, Type: types[r.Rng.Intn(3)], Writes: 2 + r.Rng.Intn(4), Remote: 1, MaxHist: 1 + r.Rng.Intn(2), Prep: "load", Opener: "creator", Times: 1})
+		add(c18Spec{Kind: "close", When: whenMidLoad, Type: types[r.Rng.Intn(3)], Writes: 2 + r.Rng.Intn(4), Remote: 1, MaxHist: 1 + r.Rng.Intn(2), NoRepl: r.Rng.Intn(2) == 0, Times: 1})
+		// Load parked in a fetch that succeeds after Close (block API that ignores cancellation for local blocks)
+		add(c18Spec{Kind: "close", When: whenMidLoad, Variant: "lenient", Type: types[r.Rng.Intn(3)], Writes: 1 + r.Rng.Intn(4), Remote: r.Rng.Intn(3), Times: 1})
+		add(c18Spec{Kind: "close", When: whenMidLoad, Variant: "lenient", Type: types[r.Rng.Intn(3)], Writes: 1 + r.Rng.Intn(4), Remote: r.Rng.Intn(3), NoRepl: true, Times: 1 + r.Rng.Intn(3)})
+		// random extra close scenarios, random configuration
+		for i := 0; i < 20; i++ {
+			s := c18Spec{Kind: "close", When: closeWhens[r.Rng.Intn(7)], Type: types[r.Rng.Intn(3)], Writes: 1 + r.Rng.Intn(6), Remote: r.Rng.Intn(4),
+				Times: 1 + r.Rng.Intn(4)}
+			s.Concurrent = s.Times > 1 && r.Rng.Intn(2) == 0
+			if needsRemote(s.When) {
+				s.Remote = 1 + r.Rng.Intn(3)
+			}
+			randomCfg(&s, s.When)
+			add(s)
+		}
+		// Close while a block fetch never completes: every route into the replicator, on a
+		// replicating and on a non-replicating store
+		feeds := []struct {
+			feed string
+			when int
+		}{{"sync", whenStuckSync}, {"direct", whenStuckSync}, {"loadmore", whenStuckLoadMore}, {"loadmore-stub", whenStuckLoadMore}, {"snapshot", whenStuckSnapshot}, {"ancestors", whenStuckAncestors}}
+		for fi, f := range feeds {
+			for _, norepl := range []bool{false, true} {
+				s := c18Spec{Kind: "stuck", Feed: f.feed, When: f.when, Type: types[(fi+rep)%3], Writes: 1 + r.Rng.Intn(3), Remote: 1 + r.Rng.Intn(3), NoRepl: norepl, Times: 1 + r.Rng.Intn(3)}
+				s.Concurrent = s.Times > 1 && r.Rng.Intn(2) == 0
+				if r.Rng.Intn(3) == 0 {
+					s.Opener = "creator"
+				}
+				if f.feed != "ancestors" && r.Rng.Intn(4) == 0 {
+					s.MaxHist = 1 + r.Rng.Intn(2)
+				}
+				add(s)
+			}
+		}
+		add(c18Spec{Kind: "stuck", Feed: "sync", When: whenStuckSync, Type: types[r.Rng.Intn(3)], Writes: 1 + r.Rng.Intn(3), Remote: 1 + r.Rng.Intn(3), Mem: true, NoRepl: r.Rng.Intn(2) == 0, Times: 1})
+		add(c18Spec{Kind: "stuck", Feed: "loadmore", When: whenStuckLoadMore, Type: types[r.Rng.Intn(3)], Writes: 1 + r.Rng.Intn(3), Remote: 1 + r.Rng.Intn(3), Mem: true, NoRepl: r.Rng.Intn(2) == 0, Opener: "creator", Times: 2})
+		add(c18Spec{Kind: "stuck", Feed: "loadmore-stub", When: whenStuckLoadMore, Type: types[r.Rng.Intn(3)], Prep: "never", NoRepl: true, Times: 1})
+		// Load / LoadFromSnapshot themselves waiting for the block
+		add(c18Spec{Kind: "stuck", Feed: "load", When: whenLoadStuck, Type: types[r.Rng.Intn(3)], Writes: 1 + r.Rng.Intn(3), Remote: 2 + r.Rng.Intn(2), NoRepl: r.Rng.Intn(2) == 0, Times: 1})
+		add(c18Spec{Kind: "stuck", Feed: "snapfile", When: whenSnapStuck, Type: types[r.Rng.Intn(3)], Writes: 1 + r.Rng.Intn(3), NoRepl: r.Rng.Intn(2) == 0, Times: 1})
+		// instance Close with several databases of mixed configurations
+		icfgs := func(n int, mem bool) []c18Cfg {
+			var cs []c18Cfg
+			for k := 0; k < n; k++ {
+				cs = append(cs, c18Cfg{Repl: r.Rng.Intn(2) == 0, Mem: mem, Limited: r.Rng.Intn(4) == 0})
+			}
+			return cs
+		}
 		for i := 0; i < 10; i++ {
 			s := c18Spec{Kind: "iclose", When: whenInstance, NDB: 2 + r.Rng.Intn(3), Writes: 1 + r.Rng.Intn(4), Times: 1 + r.Rng.Intn(3)}
 			s.Concurrent = s.Times > 1 && r.Rng.Intn(2) == 0
 			s.Variant = []string{"idle", "idle", "midwrite", "storeclosed"}[r.Rng.Intn(4)]
+			s.Mem = i >= 8
+			s.Cfgs = icfgs(s.NDB, s.Mem)
+			if i == 0 {
+				// all defaults, as the driver always did
+				for k := range s.Cfgs {
+					s.Cfgs[k] = c18Cfg{Repl: true}
+				}
+			}
+			add(s)
+		}
+		for i := 0; i < 3; i++ {
+			s := c18Spec{Kind: "iclose", When: whenInstanceStuck, Variant: "stuckfetch", NDB: 2 + r.Rng.Intn(2), Writes: 1 + r.Rng.Intn(3), Times: 1 + r.Rng.Intn(2), Mem: i == 2}
+			s.Cfgs = icfgs(s.NDB, s.Mem)
+			s.Cfgs[0].Repl = i == 0 // at least one non-replicating database in two of the three
 			add(s)
 		}
 		// Drop with siblings
-		for _, v := range []string{"open", "closed", "twice", "midwrite", "stale", "open", "closed", "twice", "stale"} {
-			add(c18Spec{Kind: "drop", Variant: v, Type: types[r.Rng.Intn(3)], Writes: 1 + r.Rng.Intn(4), NDB: 2 + r.Rng.Intn(2)})
+		for i, v := range []string{"open", "closed", "twice", "midwrite", "stale", "open", "closed", "twice", "stale"} {
+			s := c18Spec{Kind: "drop", Variant: v, Type: types[r.Rng.Intn(3)], Writes: 1 + r.Rng.Intn(4), NDB: 2 + r.Rng.Intn(2)}
+			if i >= 5 {
+				s.NoRepl = r.Rng.Intn(2) == 0
+				s.Mem = r.Rng.Intn(3) == 0
+				if r.Rng.Intn(4) == 0 {
+					s.MaxHist = 2
+				}
+			}
+			add(s)
 		}
+		add(c18Spec{Kind: "drop", Variant: "stuckfetch", Type: types[r.Rng.Intn(3)], Writes: 1 + r.Rng.Intn(4), NDB: 2})
+		add(c18Spec{Kind: "drop", Variant: "stuckfetch", Type: types[r.Rng.Intn(3)], Writes: 1 + r.Rng.Intn(4), NDB: 2, NoRepl: true})
+		add(c18Spec{Kind: "drop", Variant: "stuckfetch", Type: types[r.Rng.Intn(3)], Writes: 1 + r.Rng.Intn(4), NDB: 2, NoRepl: r.Rng.Intn(2) == 0, Mem: true})
+		add(c18Spec{Kind: "drop", Variant: "open", Type: types[r.Rng.Intn(3)], Prep: "never", NDB: 2, NoRepl: r.Rng.Intn(2) == 0})
+		add(c18Spec{Kind: "drop", Variant: []string{"open", "closed", "twice", "stale"}[r.Rng.Intn(4)], Type: types[r.Rng.Intn(3)], Writes: 1 + r.Rng.Intn(4), NDB: 2, Mem: true})
+		// databases that share a manifest root: Drop of the parent, the deep one, the child ...
+		for i, shape := range []string{"parent", "deep", "child"} {
+			add(c18Spec{Kind: "drop", Variant: []string{"open", "closed", "twice"}[(i+rep)%3], Shape: shape, Type: types[r.Rng.Intn(3)], Writes: 1 + r.Rng.Intn(3), NDB: 1, NoRepl: r.Rng.Intn(3) == 0})
+		}
+		add(c18Spec{Kind: "drop", Variant: "open", Shape: "parent", Type: types[r.Rng.Intn(3)], Writes: 1 + r.Rng.Intn(3), NDB: 1, Mem: true})
+		// ... and Close of one of them, the others written to afterwards, everything reopened
+		for i, shape := range []string{"parent", "deep", "child"} {
+			s := c18Spec{Kind: "sameroot", Shape: shape, Type: types[(i+rep)%3], Writes: 1 + r.Rng.Intn(3)}
+			s.Cfgs = icfgs(3, false)
+			for k := range s.Cfgs {
+				s.Cfgs[k].Limited = false
+			}
+			add(s)
+		}
+		add(c18Spec{Kind: "sameroot", Shape: []string{"parent", "deep", "child"}[r.Rng.Intn(3)], Type: types[r.Rng.Intn(3)], Writes: 1 + r.Rng.Intn(3), Mem: true, Cfgs: []c18Cfg{{Repl: true, Mem: true}, {Repl: false, Mem: true}, {Repl: true, Mem: true}}})
 		// an address whose path climbs out of its root
 		add(c18Spec{Kind: "alias", Variant: "victim-open", Type: types[r.Rng.Intn(3)], Writes: 1 + r.Rng.Intn(3)})
 		add(c18Spec{Kind: "alias", Variant: "victim-closed", Type: types[r.Rng.Intn(3)], Writes: 1 + r.Rng.Intn(3)})
@@ -460,9 +715,13 @@ func c18Plan(r *Run) []c18Spec {
 		for _, t := range types {
 			add(c18Spec{Kind: "afterclose", Type: t, Variant: "store", Writes: 1 + r.Rng.Intn(3), Remote: 1 + r.Rng.Intn(2)})
 			add(c18Spec{Kind: "afterclose", Type: t, Variant: "instance", Writes: 1 + r.Rng.Intn(3)})
+			add(c18Spec{Kind: "afterclose", Type: t, Variant: "store", Writes: 1 + r.Rng.Intn(3), Remote: 1 + r.Rng.Intn(2), NoRepl: true, Opener: []string{"", "creator"}[r.Rng.Intn(2)]})
 		}
+		add(c18Spec{Kind: "afterclose", Type: types[r.Rng.Intn(3)], Variant: "store", Writes: 1 + r.Rng.Intn(3), Remote: 1, Mem: true, NoRepl: r.Rng.Intn(2) == 0})
+		add(c18Spec{Kind: "afterclose", Type: types[r.Rng.Intn(3)], Variant: "instance", Writes: 1 + r.Rng.Intn(3), Mem: true, NoRepl: r.Rng.Intn(2) == 0})
 		// legacy emitter subscribers
 		add(c18Spec{Kind: "legacy", When: whenLegacySub, Type: types[r.Rng.Intn(3)], Writes: 1 + r.Rng.Intn(3), Variant: "ctx-live", Times: 1})
+		add(c18Spec{Kind: "legacy", When: whenLegacySub, Type: types[r.Rng.Intn(3)], Writes: 1 + r.Rng.Intn(3), Variant: "ctx-live", Times: 1, NoRepl: true})
 		add(c18Spec{Kind: "legacy", When: whenIdle, Type: types[r.Rng.Intn(3)], Writes: 1 + r.Rng.Intn(3), Variant: "ctx-cancelled", Times: 1})
 		// real pubsub adapter and direct channel on a two-node mock network
 		add(c18Spec{Kind: "realnet", When: whenRealNet, Type: types[r.Rng.Intn(3)], Writes: 1 + r.Rng.Intn(3), Times: 1})
@@ -676,10 +935,14 @@ func c18Run(r *Run, sp c18Spec, out *c18Result) error {
 	switch sp.Kind {
 	case "close":
 		return c18Close(r, sp, out)
+	case "stuck":
+		return c18Stuck(r, sp, out)
 	case "iclose":
 		return c18InstanceClose(r, sp, out)
 	case "drop":
 		return c18Drop(r, sp, out)
+	case "sameroot":
+		return c18SameRoot(r, sp, out)
 	case "alias":
 		return c18Alias(r, sp, out)
 	case "afterclose":
@@ -717,13 +980,25 @@ func acBoth(reps ...*sim.Replica) *accesscontroller.CreateAccessControllerOption
 	return &accesscontroller.CreateAccessControllerOptions{Access: map[string][]string{"write": w}}
 }
 
-func coqCClose(when, times int, concurrent bool, leaked []int, errs []int) string {
-	return fmt.Sprintf("(CClose %s %s %s %s %s)", sim.CoqN(when), sim.CoqNat(times), sim.CoqBool(concurrent), sim.CoqListN(leaked), sim.CoqListN(errs))
+func coqCClose(cfgs []c18Cfg, when, times int, concurrent bool, leaked []int, errs []int) string {
+	return fmt.Sprintf("(CClose %s %s %s %s %s %s)", coqCfgs(cfgs), sim.CoqN(when), sim.CoqNat(times), sim.CoqBool(concurrent), sim.CoqListN(leaked), sim.CoqListN(errs))
+}
+
+// cfgsOf: the configurations a CClose case of this scenario carries
+func cfgsOf(sp c18Spec) []c18Cfg {
+	if len(sp.Cfgs) > 0 {
+		return sp.Cfgs
+	}
+	return []c18Cfg{sp.cfg()}
 }
 
 func (o *c18Result) addClose(sp c18Spec, when, times int, concurrent bool, leaks []gor, classes []int, msgs []string, extra map[string]interface{}) {
+	o.addCloseCfg(cfgsOf(sp), when, times, concurrent, leaks, classes, msgs, extra)
+}
+
+func (o *c18Result) addCloseCfg(cfgs []c18Cfg, when, times int, concurrent bool, leaks []gor, classes []int, msgs []string, extra map[string]interface{}) {
 	nums, names := leakSites(leaks)
-	d := map[string]interface{}{"kind": "close", "when": when, "times": times, "concurrent": concurrent, "leaked": names, "close_results": msgs}
+	d := map[string]interface{}{"kind": "close", "when": when, "times": times, "concurrent": concurrent, "leaked": names, "close_results": msgs, "configs": cfgs}
 	for k, v := range extra {
 		d[k] = v
 	}
@@ -746,8 +1021,11 @@ func (o *c18Result) addClose(sp c18Spec, when, times int, concurrent bool, leaks
 			}
 		}
 	}
-	o.add(coqCClose(when, times, concurrent, nums, classes), d, true)
+	o.add(coqCClose(cfgs, when, times, concurrent, nums, classes), d, true)
 	o.count(fmt.Sprintf("close:when=%d", when))
+	for _, c := range cfgs {
+		o.count(fmt.Sprintf("close:config:replicate=%v,memory=%v,limited=%v", c.Repl, c.Mem, c.Limited))
+	}
 	if concurrent {
 		o.count("close:concurrent")
 	} else if times > 1 {
@@ -771,12 +1049,14 @@ func (o *c18Result) addAfter(op, cls int, msg string, extra map[string]interface
 // every database and compare with what was acknowledged.
 func (o *c18Result) reopenCheck(env *sim.Env, rep *sim.Replica, label string, dbs []string, acked map[string][]string, in *sim.Interner, why string) (*sim.Replica, error) {
 	ctx := context.Background()
+	// the configuration that matters for a reopen is where the instance keeps its data
+	cfg := c18Cfg{Repl: true, Mem: rep.Dir == memDir}.coq()
 	rep2, err := env.NewReplicaOpts(rep.Idx, label, rep.Dir, rep.PID, nil)
 	if err != nil {
 		// the directory cannot be opened again (e.g. a lock still held): a finding, not a harness error
 		for _, addr := range dbs {
 			a := c18IDs(in, acked[addr])
-			o.add(fmt.Sprintf("(CReopen %s %s false)", sim.CoqListN(a), sim.CoqListN(nil)),
+			o.add(fmt.Sprintf("(CReopen %s %s %s false)", cfg, sim.CoqListN(a), sim.CoqListN(nil)),
 				map[string]interface{}{"kind": "reopen", "why": why, "acked": len(a), "present": 0, "message": "reopen instance: " + err.Error(), "sig": "reopen:instance:" + why}, true)
 		}
 		return nil, nil
@@ -802,18 +1082,26 @@ func (o *c18Result) reopenCheck(env *sim.Env, rep *sim.Replica, label string, db
 		}
 		a := c18IDs(in, acked[addr])
 		p := c18IDs(in, present)
-		d := map[string]interface{}{"kind": "reopen", "why": why, "acked": len(a), "present": len(p), "message": msg}
+		d := map[string]interface{}{"kind": "reopen", "why": why, "acked": len(a), "present": len(p), "message": msg, "memory": rep.Dir == memDir}
 		missing := 0
 		for _, x := range a {
 			if !containsInt(p, x) {
 				missing++
 			}
 		}
-		if !okAll || missing > 0 {
+		if rep.Dir == memDir {
+			// nothing is promised to outlive a ":memory:" instance; the model says nothing does
+			if !okAll {
+				d["sig"] = fmt.Sprintf("reopen:memory:%s", why)
+			} else if len(p) > 0 {
+				d["sig"] = "reopen:memory-instance-found-data"
+			}
+			o.count("reopen:memory")
+		} else if !okAll || missing > 0 {
 			d["sig"] = fmt.Sprintf("reopen:%s", why)
 			d["missing"] = missing
 		}
-		o.add(fmt.Sprintf("(CReopen %s %s %s)", sim.CoqListN(a), sim.CoqListN(p), sim.CoqBool(okAll)), d, len(a) > 0)
+		o.add(fmt.Sprintf("(CReopen %s %s %s %s)", cfg, sim.CoqListN(a), sim.CoqListN(p), sim.CoqBool(okAll)), d, len(a) > 0)
 		o.count("reopen")
 	}
 	return rep2, nil
@@ -821,26 +1109,103 @@ func (o *c18Result) reopenCheck(env *sim.Env, rep *sim.Replica, label string, db
 
 // ---- scenario: store Close at a scripted moment ----
 
+// c18Pair sets up the two instances of a store-level scenario and the database: replica A is
+// the one under test (on ":memory:" if the configuration says so), B the peer that holds the
+// remote entries.  Opener "" : B creates the database and A opens it from its address (A is
+// not its creator); "creator": A creates it (and closes that first handle), B opens it.
+// Returns B's store; A's store is opened by the caller once it has recorded the goroutines.
+func c18Pair(sp c18Spec) (s *Scen, A, B *sim.Replica, stB iface.Store, addr string, err error) {
+	ctx := context.Background()
+	s, err = NewScen(2, sp.Type, &ScenOpts{NoOpen: true})
+	if err != nil {
+		return
+	}
+	A, B = s.Reps[0], s.Reps[1]
+	if sp.Mem {
+		_ = A.Orbit.Close()
+		if A, err = memReplica(s.Env, A.Idx, s.Label); err != nil {
+			err = fmt.Errorf("instance on %s: %w", memDir, err)
+			return
+		}
+		s.Reps[0] = A
+	}
+	if sp.Opener == "creator" {
+		var st0 iface.Store
+		if st0, err = A.Orbit.Create(ctx, "db-"+s.Label, sp.Type, &orbitdb.CreateDBOptions{AccessController: acBoth(A, B)}); err != nil {
+			return
+		}
+		addr = st0.Address().String()
+		if c, m := callClass(10*time.Second, st0.Close); c != clsOK {
+			err = fmt.Errorf("close of the creating handle: %s %s", clsName[c], m)
+			return
+		}
+		stB, err = B.Orbit.Open(ctx, addr, &orbitdb.CreateDBOptions{})
+	} else {
+		if stB, err = B.Orbit.Create(ctx, "db-"+s.Label, sp.Type, &orbitdb.CreateDBOptions{AccessController: acBoth(A, B)}); err == nil {
+			addr = stB.Address().String()
+		}
+	}
+	s.Addr = addr
+	return
+}
+
+// c18Open opens the store under test on A with the configuration of the scenario and applies
+// its preparation ("load": Load before anything else, Load(0) when MaxHistory is set).
+func c18Open(sp c18Spec, A *sim.Replica, addr string) (iface.Store, error) {
+	ctx := context.Background()
+	st, err := withMaxHistory(A.Orbit, sp.MaxHist, func() (iface.Store, error) { return A.Orbit.Open(ctx, addr, sp.dbOpts(nil)) })
+	if err != nil {
+		return nil, err
+	}
+	if sp.Prep == "load" {
+		amount := -1
+		if sp.MaxHist > 0 {
+			amount = 0
+		}
+		if c, m := callClass(20*time.Second, func() error { return st.Load(ctx, amount) }); c != clsOK {
+			return nil, fmt.Errorf("preparatory load: %s %s", clsName[c], m)
+		}
+	}
+	return st, nil
+}
+
+func (sp c18Spec) opDescr() map[string]interface{} {
+	return map[string]interface{}{"type": sp.Type, "config": sp.cfg()}
+}
+
+func (sp c18Spec) describe(extra map[string]interface{}) {
+	extra["type"] = sp.Type
+	extra["config"] = sp.cfg()
+	if sp.Opener != "" {
+		extra["opener"] = sp.Opener
+	}
+	if sp.Prep != "" {
+		extra["prep"] = sp.Prep
+	}
+	if sp.MaxHist > 0 {
+		extra["max_history"] = sp.MaxHist
+	}
+	if sp.Feed != "" {
+		extra["feed"] = sp.Feed
+	}
+}
+
 func c18Close(r *Run, sp c18Spec, out *c18Result) error {
 	ctx := context.Background()
-	s, err := NewScen(2, sp.Type, &ScenOpts{NoOpen: true})
+	s, A, B, stB, addr, err := c18Pair(sp)
 	if err != nil {
 		return err
 	}
-	A, B := s.Reps[0], s.Reps[1]
 	in := sim.NewInterner()
-	stB, err := B.Orbit.Create(ctx, "db-"+s.Label, sp.Type, &orbitdb.CreateDBOptions{AccessController: acBoth(A, B)})
-	if err != nil {
-		return err
-	}
-	addr := stB.Address().String()
-	s.Addr = addr
 	remote := sp.Remote
 	if sp.When == whenAfterDequeue || sp.When == whenBeforeDone || sp.When == whenMidFetch {
 		remote = 0 // the remote entries are the ones whose replication is interrupted
 	}
+	if sp.Prep == "never" {
+		remote = 0
+	}
 	var lenient *lenientAPI
-	if sp.When == whenMidFetch {
+	if sp.When == whenMidFetch || (sp.When == whenMidLoad && sp.Variant == "lenient") {
 		// same directory, identity, peer id and simulated network, but block fetches behave like
 		// kubo's for locally available blocks: they succeed whatever the context says
 		_ = A.Orbit.Close()
@@ -860,14 +1225,16 @@ func c18Close(r *Run, sp c18Spec, out *c18Result) error {
 	}
 	time.Sleep(30 * time.Millisecond)
 	before := goroutineIDs()
-	stA, err := A.Orbit.Open(ctx, addr, &orbitdb.CreateDBOptions{})
+	stA, err := c18Open(sp, A, addr)
 	if err != nil {
 		return err
 	}
 	s.Stores = []iface.Store{stA, stB}
-	for i := 0; i < sp.Writes; i++ {
-		if err := writeOp(r, s, stA, i); err != nil {
-			return err
+	if sp.Prep != "never" {
+		for i := 0; i < sp.Writes; i++ {
+			if err := writeOp(r, s, stA, i); err != nil {
+				return err
+			}
 		}
 	}
 	if remote > 0 {
@@ -879,7 +1246,8 @@ func c18Close(r *Run, sp c18Spec, out *c18Result) error {
 		}
 	}
 	acked := c18Hashes(stA)
-	extra := map[string]interface{}{"type": sp.Type, "acked": len(acked)}
+	extra := map[string]interface{}{"acked": len(acked)}
+	sp.describe(extra)
 	doClose := func() ([]int, []string) { return closeMany(sp.Times, sp.Concurrent, stA.Close) }
 	var classes []int
 	var msgs []string
@@ -913,7 +1281,7 @@ func c18Close(r *Run, sp c18Spec, out *c18Result) error {
 			acked = c18Hashes(stA) // acknowledged: must survive
 		}
 		extra["write_outcome"] = clsName[w.cls]
-		out.addAfter(op, w.cls, w.msg, map[string]interface{}{"type": sp.Type})
+		out.addAfter(op, w.cls, w.msg, sp.opDescr())
 	case whenAfterDequeue, whenBeforeDone:
 		for i := 0; i < sp.Remote; i++ {
 			if err := writeOp(r, s, stB, 2000+i); err != nil {
@@ -967,8 +1335,10 @@ func c18Close(r *Run, sp c18Spec, out *c18Result) error {
 			return fmt.Errorf("replication did not reach a block fetch")
 		}
 		classes, msgs = doClose()
-		// the progress consumers of the workers have seen the cancellation
-		waitNoSite(before, "stores/replicator.(*replicator).processHash", 2*time.Second)
+		// the progress consumers of the workers have seen the cancellation: one that leaves on
+		// cancellation (the defect this moment is about) is gone within microseconds; one that
+		// drains stays until its channel is closed, and then the wait is not needed
+		waitNoSite(before, "stores/replicator.(*replicator).processHash", 300*time.Millisecond)
 		lenient.setGate(nil)
 		close(release)
 	case whenMidLoad:
@@ -976,14 +1346,34 @@ func c18Close(r *Run, sp c18Spec, out *c18Result) error {
 		if c, m := callClass(10*time.Second, stA.Close); c != clsOK {
 			return fmt.Errorf("preparatory close: %s %s", clsName[c], m)
 		}
-		stA, err = A.Orbit.Open(ctx, addr, &orbitdb.CreateDBOptions{})
+		stA, err = withMaxHistory(A.Orbit, sp.MaxHist, func() (iface.Store, error) { return A.Orbit.Open(ctx, addr, sp.dbOpts(nil)) })
 		if err != nil {
 			return fmt.Errorf("preparatory reopen: %w", err)
 		}
 		s.Stores[0] = stA
+		loadAmount := -1
+		if sp.MaxHist > 0 {
+			loadAmount = 0 // MaxHistory applies
+		}
 		arrived := make(chan struct{}, 1)
 		release := make(chan struct{})
+		if lenient != nil {
+			// the fetch Load is parked in SUCCEEDS after Close, whatever the context says (kubo
+			// and a block it holds locally): the fetcher then reports the entry on Load's
+			// progress channel, whose consumer must still be there
+			extra["variant"] = "the parked fetch succeeds after Close"
+			lenient.setGate(func(cid.Cid) {
+				select {
+				case arrived <- struct{}{}:
+				default:
+				}
+				<-release
+			})
+		}
 		A.API.SetGate(func(ctx context.Context, c cid.Cid) error {
+			if lenient != nil {
+				return nil
+			}
 			select {
 			case arrived <- struct{}{}:
 			default:
@@ -991,6 +1381,11 @@ func c18Close(r *Run, sp c18Spec, out *c18Result) error {
 			select {
 			case <-release:
 			case <-ctx.Done():
+				// (a tree that binds Load to the store cancels this fetch from within Close: the
+				// fetch notices after Close has returned, so that Load always finishes on a store
+				// that is completely closed - otherwise its last step, the ready event, races
+				// with the rest of Close and Load answers nil or an error as the schedule has it)
+				<-release
 				return ctx.Err()
 			}
 			return nil
@@ -1001,7 +1396,7 @@ func c18Close(r *Run, sp c18Spec, out *c18Result) error {
 		}
 		lres := make(chan lr, 1)
 		go func() {
-			c, m := callClass(30*time.Second, func() error { return stA.Load(ctx, -1) })
+			c, m := callClass(30*time.Second, func() error { return stA.Load(ctx, loadAmount) })
 			lres <- lr{c, m}
 		}()
 		select {
@@ -1009,14 +1404,20 @@ func c18Close(r *Run, sp c18Spec, out *c18Result) error {
 		case <-time.After(5 * time.Second):
 			close(release)
 			A.API.SetGate(nil)
+			if lenient != nil {
+				lenient.setGate(nil)
+			}
 			return fmt.Errorf("load did not reach a block fetch")
 		}
 		classes, msgs = closeMany(sp.Times, sp.Concurrent, stA.Close)
 		close(release)
 		A.API.SetGate(nil)
+		if lenient != nil {
+			lenient.setGate(nil)
+		}
 		l := <-lres
 		extra["load_outcome"] = clsName[l.cls]
-		out.addAfter(opInflightLoad, l.cls, l.msg, map[string]interface{}{"type": sp.Type})
+		out.addAfter(opInflightLoad, l.cls, l.msg, sp.opDescr())
 	}
 	leaks := settleLeaks(before, leakBudget)
 	out.addClose(sp, sp.When, sp.Times, sp.Concurrent, leaks, classes, msgs, extra)
@@ -1032,6 +1433,522 @@ func c18Close(r *Run, sp c18Spec, out *c18Result) error {
 		_ = A2.Orbit.Close()
 	}
 	_ = B.Orbit.Close()
+	return nil
+}
+
+// ---- scenario: Close while a block fetch never completes ----
+
+// stuckGate is installed on the block API of the replica under test.  A fetch of a cid in
+// `block` never completes: it waits until its context is done (what a bitswap request does for
+// a block nobody provides).  A fetch of a cid in `fail` fails at once (used to prepare a
+// replicator that remembers a failed hash, or a log with a missing ancestor).
+type stuckGate struct {
+	mu       sync.Mutex
+	block    map[string]bool
+	fail     map[string]bool
+	blocked  int
+	arrived  chan struct{}
+	release  chan struct{}
+	relOnce  sync.Once
+	everSeen int
+	// hold: a fetch whose context ends notices it only once closeDone is closed (the scenario
+	// closes it when Close has returned).  Used where the operation that waits for the block
+	// would otherwise finish while Close is still running (see c18Close, moment 5).
+	hold      bool
+	closeDone chan struct{}
+	cdOnce    sync.Once
+}
+
+func newStuckGate() *stuckGate {
+	return &stuckGate{block: map[string]bool{}, fail: map[string]bool{}, arrived: make(chan struct{}, 1), release: make(chan struct{}), closeDone: make(chan struct{})}
+}
+
+func (g *stuckGate) markClosed() { g.cdOnce.Do(func() { close(g.closeDone) }) }
+
+func (g *stuckGate) set(block, fail []string) {
+	g.mu.Lock()
+	g.block, g.fail = map[string]bool{}, map[string]bool{}
+	for _, c := range block {
+		g.block[c] = true
+	}
+	for _, c := range fail {
+		g.fail[c] = true
+	}
+	g.mu.Unlock()
+}
+
+func (g *stuckGate) fetch(ctx context.Context, c cid.Cid) error {
+	k := c.String()
+	g.mu.Lock()
+	b, f := g.block[k], g.fail[k]
+	if b {
+		g.blocked++
+		g.everSeen++
+	}
+	g.mu.Unlock()
+	if f && !b {
+		return fmt.Errorf("sim: block %s not found (scripted)", k)
+	}
+	if !b {
+		return nil
+	}
+	defer func() {
+		g.mu.Lock()
+		g.blocked--
+		g.mu.Unlock()
+	}()
+	select {
+	case g.arrived <- struct{}{}:
+	default:
+	}
+	select {
+	case <-ctx.Done():
+		if g.hold {
+			select {
+			case <-g.closeDone:
+			case <-g.release:
+			}
+		}
+		return ctx.Err()
+	case <-g.release:
+		return fmt.Errorf("sim: block %s withheld (end of scenario)", k)
+	}
+}
+
+func (g *stuckGate) nBlocked() int {
+	g.mu.Lock()
+	defer g.mu.Unlock()
+	return g.blocked
+}
+
+// free lets every waiting fetch fail (end of the scenario: nothing of it may linger in the
+// child process, whatever the tree under test does).
+func (g *stuckGate) free() { g.relOnce.Do(func() { close(g.release) }) }
+
+// waitStuck: every replication task of the store that can run is inside a blocked fetch.
+func (g *stuckGate) waitStuck(st iface.Store, d time.Duration) bool {
+	deadline := time.Now().Add(d)
+	stable := 0
+	for time.Now().Before(deadline) {
+		rs := sim.ReplState(st)
+		if n := g.nBlocked(); n > 0 && rs.Added == 0 && rs.Queue == 0 && rs.Fetching == n {
+			stable++
+			if stable >= 5 {
+				return true
+			}
+		} else {
+			stable = 0
+		}
+		time.Sleep(4 * time.Millisecond)
+	}
+	return false
+}
+
+// waitStuckN: the replicator of the store has exactly n tasks, all being fetched (several
+// stores share the gate, so the gate's own count cannot be compared with one store's).
+func (g *stuckGate) waitStuckN(st iface.Store, n int, d time.Duration) bool {
+	deadline := time.Now().Add(d)
+	stable := 0
+	for time.Now().Before(deadline) {
+		rs := sim.ReplState(st)
+		if rs.Added == 0 && rs.Queue == 0 && rs.Fetching == n && g.nBlocked() >= n {
+			stable++
+			if stable >= 5 {
+				return true
+			}
+		} else {
+			stable = 0
+		}
+		time.Sleep(4 * time.Millisecond)
+	}
+	return false
+}
+
+// waitBlocked: at least one fetch is blocked and the number has not moved for a few polls.
+func (g *stuckGate) waitBlocked(d time.Duration) bool {
+	deadline := time.Now().Add(d)
+	stable, last := 0, -1
+	for time.Now().Before(deadline) {
+		n := g.nBlocked()
+		if n > 0 && n == last {
+			stable++
+			if stable >= 5 {
+				return true
+			}
+		} else {
+			stable = 0
+		}
+		last = n
+		time.Sleep(4 * time.Millisecond)
+	}
+	return false
+}
+
+// fabricatedCid: the cid of a block that exists nowhere.
+func fabricatedCid(r *Run) cid.Cid {
+	b := make([]byte, 32)
+	r.Rng.Read(b)
+	mh, err := multihash.Sum(b, multihash.SHA2_256, -1)
+	if err != nil {
+		panic(err)
+	}
+	return cid.NewCidV1(cid.DagCBOR, mh)
+}
+
+type callRes struct {
+	cls int
+	msg string
+}
+
+// goCall starts f behind recover on its own goroutine; the result is delivered on the channel.
+func goCall(f func() error) chan callRes {
+	ch := make(chan callRes, 1)
+	go func() {
+		defer func() {
+			if p := recover(); p != nil {
+				ch <- callRes{clsPanic, fmt.Sprint(p)}
+			}
+		}()
+		if err := f(); err != nil {
+			ch <- callRes{clsErr, err.Error()}
+			return
+		}
+		ch <- callRes{clsOK, ""}
+	}()
+	return ch
+}
+
+func awaitCall(ch chan callRes, d time.Duration) callRes {
+	select {
+	case r := <-ch:
+		return r
+	case <-time.After(d):
+		return callRes{clsHang, "no answer within " + d.String()}
+	}
+}
+
+// c18Stuck: the replicator of the store under test (any configuration: replicating or not, on
+// disk or in memory, with or without MaxHistory, opened by its creator or by another instance)
+// is fed by one of the routes that exist whether or not the store replicates, the block it
+// then asks for never arrives, and the store is closed.  Afterwards: no goroutine of the store
+// left, every Close nil, the operation that was in flight has answered, the directory reopens
+// with everything acknowledged.  Feeds "load" and "snapfile": Load / LoadFromSnapshot
+// themselves are the ones waiting for the block.
+func c18Stuck(r *Run, sp c18Spec, out *c18Result) error {
+	ctx := context.Background()
+	s, A, B, stB, addr, err := c18Pair(sp)
+	if err != nil {
+		return err
+	}
+	in := sim.NewInterner()
+	gate := newStuckGate()
+	defer gate.free()
+	A.API.SetGate(gate.fetch)
+	defer A.API.SetGate(nil)
+	defer func() { sim.TheHooks.Extra = nil }()
+	nRemote := sp.Remote
+	if nRemote < 1 {
+		nRemote = 1
+	}
+	needsPrep := sp.Feed == "snapshot" || sp.Feed == "ancestors" || sp.Feed == "load" || sp.Feed == "snapfile"
+	if (sp.Feed == "ancestors" || sp.Feed == "load") && nRemote < 2 {
+		nRemote = 2
+	}
+	if needsPrep && sp.Mem {
+		return fmt.Errorf("feed %s needs a cache that outlives the first handle", sp.Feed)
+	}
+	nonHeads := func() (heads []ipfslog.Entry, hs []string, rest []string) {
+		heads = stB.OpLog().Heads().Slice()
+		isHead := map[string]bool{}
+		for _, h := range heads {
+			isHead[h.GetHash().String()] = true
+			hs = append(hs, h.GetHash().String())
+		}
+		for _, e := range stB.OpLog().Values().Slice() {
+			if !isHead[e.GetHash().String()] {
+				rest = append(rest, e.GetHash().String())
+			}
+		}
+		return
+	}
+	var acked []string
+	var queued []string // what the saved queue / the missing ancestors consist of
+	if needsPrep {
+		// a first handle (default options) produces the local state the scenario starts from
+		st0, err := A.Orbit.Open(ctx, addr, &orbitdb.CreateDBOptions{})
+		if err != nil {
+			return err
+		}
+		s.Stores = []iface.Store{st0, stB}
+		for i := 0; i < sp.Writes; i++ {
+			if err := writeOp(r, s, st0, i); err != nil {
+				return err
+			}
+		}
+		switch sp.Feed {
+		case "snapshot":
+			// A replicates B's first entries completely, then hears of a newer head whose block
+			// cannot be had: the replicator keeps the hash as failed, SaveSnapshot saves it as
+			// the queue next to a complete snapshot
+			for i := 0; i < nRemote; i++ {
+				if err := writeOp(r, s, stB, 1000+i); err != nil {
+					return err
+				}
+			}
+			if err := s.SyncFrom(0, 1); err != nil {
+				return err
+			}
+			if !s.Settle() {
+				return fmt.Errorf("preparatory replication did not settle: %s", sim.LastSettleState)
+			}
+			if err := writeOp(r, s, stB, 1500); err != nil {
+				return err
+			}
+			_, hs, _ := nonHeads()
+			gate.set(nil, hs)
+			queued = hs
+			if err := s.SyncFrom(0, 1); err != nil {
+				return err
+			}
+			if !s.Settle() {
+				return fmt.Errorf("preparatory replication (failing head) did not settle: %s", sim.LastSettleState)
+			}
+		case "ancestors", "load":
+			// A replicates B's head but not what it points to (those blocks cannot be had): the
+			// head is joined and persisted, its ancestors are missing from the log
+			for i := 0; i < nRemote; i++ {
+				if err := writeOp(r, s, stB, 1000+i); err != nil {
+					return err
+				}
+			}
+			_, _, rest := nonHeads()
+			gate.set(nil, rest)
+			queued = rest
+			if err := s.SyncFrom(0, 1); err != nil {
+				return err
+			}
+			if !s.Settle() {
+				return fmt.Errorf("preparatory replication (failing ancestors) did not settle: %s", sim.LastSettleState)
+			}
+		}
+		if sp.Feed == "snapshot" || sp.Feed == "snapfile" {
+			if c, m := callClass(20*time.Second, func() error { _, err := basestore.SaveSnapshot(ctx, st0); return err }); c != clsOK {
+				return fmt.Errorf("preparatory SaveSnapshot: %s %s", clsName[c], m)
+			}
+			if sp.Feed == "snapshot" {
+				saved, _, err := c13Stored(ctx, st0)
+				if err != nil {
+					return fmt.Errorf("reading the saved queue: %w", err)
+				}
+				var sq []string
+				for _, c := range saved {
+					sq = append(sq, c.String())
+				}
+				sort.Strings(sq)
+				sort.Strings(queued)
+				if strings.Join(sq, ",") != strings.Join(queued, ",") {
+					return fmt.Errorf("saved queue %v, expected the failed head(s) %v", sq, queued)
+				}
+			}
+		}
+		acked = c18Hashes(st0)
+		if c, m := callClass(10*time.Second, st0.Close); c != clsOK {
+			return fmt.Errorf("close of the preparing handle: %s %s", clsName[c], m)
+		}
+	} else {
+		for i := 0; i < nRemote; i++ {
+			if err := writeOp(r, s, stB, 1000+i); err != nil {
+				return err
+			}
+		}
+	}
+	time.Sleep(30 * time.Millisecond)
+	before := goroutineIDs()
+	stA, err := c18Open(sp, A, addr)
+	if err != nil {
+		return err
+	}
+	s.Stores = []iface.Store{stA, stB}
+	if !needsPrep && sp.Prep != "never" {
+		for i := 0; i < sp.Writes; i++ {
+			if err := writeOp(r, s, stA, i); err != nil {
+				return err
+			}
+		}
+		acked = c18Hashes(stA)
+	}
+	extra := map[string]interface{}{"acked": len(acked)}
+	sp.describe(extra)
+	when := sp.When
+	var inflight chan callRes
+	inflightOp := 0
+	callerCtx, cancelCaller := context.WithCancel(ctx)
+	defer cancelCaller()
+	stuckOK := false
+	switch sp.Feed {
+	case "sync":
+		heads, hs, rest := nonHeads()
+		if len(rest) == 0 {
+			rest = hs // a single entry: the head itself is what never arrives
+		}
+		gate.set(rest, nil)
+		if err := s.SyncHeads(0, heads); err != nil {
+			return err
+		}
+		stuckOK = gate.waitStuck(stA, 5*time.Second)
+	case "direct":
+		// heads arriving on the INSTANCE's direct channel: its monitor hands them to Sync of the
+		// store registered under the address - also when that store does not replicate
+		heads, hs, rest := nonHeads()
+		if len(rest) == 0 {
+			rest = hs
+		}
+		gate.set(rest, nil)
+		var es []*entry.Entry
+		for _, h := range heads {
+			e, ok := h.(*entry.Entry)
+			if !ok {
+				return fmt.Errorf("head is not an *entry.Entry")
+			}
+			es = append(es, clone(e))
+		}
+		payload, err := json.Marshal(&iface.MessageExchangeHeads{Address: addr, Heads: es})
+		if err != nil {
+			return err
+		}
+		s.Env.Net.InjectDirect(B.PID, A.Idx, payload)
+		stuckOK = gate.waitStuck(stA, 5*time.Second)
+	case "loadmore":
+		heads, hs, rest := nonHeads()
+		if len(rest) == 0 {
+			rest = hs
+		}
+		gate.set(rest, nil)
+		cp := make([]ipfslog.Entry, len(heads))
+		for i, h := range heads {
+			cp[i] = h.Copy()
+		}
+		inflight, inflightOp = goCall(func() error { stA.LoadMoreFrom(callerCtx, 10, cp); return nil }), opInflightLoadMoreFrom
+		stuckOK = gate.waitStuck(stA, 5*time.Second)
+	case "loadmore-stub":
+		// hash-only entries, as LoadFromSnapshot and Load build them, for a block that exists nowhere
+		c := fabricatedCid(r)
+		gate.set([]string{c.String()}, nil)
+		stub := []ipfslog.Entry{&entry.Entry{Hash: c}}
+		inflight, inflightOp = goCall(func() error { stA.LoadMoreFrom(callerCtx, 10, stub); return nil }), opInflightLoadMoreFrom
+		stuckOK = gate.waitStuck(stA, 5*time.Second)
+	case "snapshot":
+		gate.set(queued, nil)
+		c, m := callClass(20*time.Second, func() error { return stA.LoadFromSnapshot(callerCtx) })
+		extra["LoadFromSnapshot"] = clsName[c] + " " + m
+		if c != clsOK {
+			return fmt.Errorf("LoadFromSnapshot (complete snapshot, saved queue): %s %s", clsName[c], m)
+		}
+		stuckOK = gate.waitStuck(stA, 5*time.Second)
+	case "ancestors":
+		// Load's own fetcher is refused the missing blocks at once; what Load then hands to the
+		// replicator never arrives
+		sim.TheHooks.Extra = func(name string, keys []string) {
+			if name == "store.sync_spawn" {
+				gate.set(queued, nil)
+			}
+		}
+		c, m := callClass(20*time.Second, func() error { return stA.Load(callerCtx, -1) })
+		extra["Load"] = clsName[c] + " " + m
+		if c != clsOK {
+			return fmt.Errorf("Load (missing ancestors): %s %s", clsName[c], m)
+		}
+		stuckOK = gate.waitStuck(stA, 5*time.Second)
+	case "load":
+		gate.hold = true
+		gate.set(queued, nil)
+		amount := -1
+		if sp.MaxHist > 0 {
+			amount = 0
+		}
+		inflight, inflightOp = goCall(func() error { return stA.Load(callerCtx, amount) }), opInflightLoadStuck
+		stuckOK = gate.waitBlocked(5 * time.Second)
+	case "snapfile":
+		arrived := make(chan struct{}, 1)
+		A.API.SetFileGate(func(c context.Context) error {
+			select {
+			case arrived <- struct{}{}:
+			default:
+			}
+			select {
+			case <-c.Done():
+				return c.Err()
+			case <-gate.release:
+				return fmt.Errorf("sim: snapshot file withheld (end of scenario)")
+			}
+		})
+		defer A.API.SetFileGate(nil)
+		inflight, inflightOp = goCall(func() error { return stA.LoadFromSnapshot(callerCtx) }), opInflightSnapshotStuck
+		select {
+		case <-arrived:
+			stuckOK = true
+		case <-time.After(5 * time.Second):
+		}
+	default:
+		return fmt.Errorf("unknown feed %q", sp.Feed)
+	}
+	if !stuckOK {
+		return fmt.Errorf("feed %s: the fetch did not get stuck (blocked=%d, replicator %+v)", sp.Feed, gate.nBlocked(), sim.ReplState(stA))
+	}
+	extra["blocked_fetches"] = gate.nBlocked()
+	extra["replicator"] = fmt.Sprintf("%+v", sim.ReplState(stA))
+	classes, msgs := closeMany(sp.Times, sp.Concurrent, stA.Close)
+	gate.markClosed()
+	// the goroutines wind down and the operation that was in flight answers, both within the
+	// same budget (they run side by side)
+	leaks := settleLeaks(before, leakBudget)
+	var ires callRes
+	if inflight != nil {
+		ires = awaitCall(inflight, 300*time.Millisecond)
+		if ires.cls == clsHang {
+			ires.msg = "no answer within " + (leakBudget + 300*time.Millisecond).String() + " of Close"
+			if len(leaks) == 0 {
+				// nothing was left, so the budget was not used up: give the answer its full time
+				ires = awaitCall(inflight, leakBudget)
+			}
+		}
+	}
+	if inflight != nil {
+		d := sp.opDescr()
+		d["feed"] = sp.Feed
+		if ires.cls == clsHang {
+			// does it at least end with its caller's context?
+			cancelCaller()
+			after := awaitCall(inflight, 5*time.Second)
+			d["after_cancelling_the_callers_context"] = clsName[after.cls] + " " + after.msg
+		}
+		out.addAfter(inflightOp, ires.cls, ires.msg, d)
+		extra["inflight_outcome"] = clsName[ires.cls]
+	}
+	out.addClose(sp, when, sp.Times, sp.Concurrent, leaks, classes, msgs, extra)
+	gate.free()
+	cancelCaller()
+	if l := settleLeaks(before, time.Second); len(l) > 0 {
+		_, names := leakSites(l)
+		out.Notes = append(out.Notes, "still present after the fetches were failed and the caller's context cancelled: "+strings.Join(names, "; "))
+	}
+	A.API.SetGate(nil)
+	A.API.SetFileGate(nil)
+	// reopen the directory
+	if c, m := callClass(20*time.Second, A.Orbit.Close); c != clsOK {
+		out.addAfter(opInstClose, c, m, map[string]interface{}{"note": "first instance close"})
+	}
+	A2, err := out.reopenCheck(s.Env, A, s.Label, []string{addr}, map[string][]string{addr: acked}, in, fmt.Sprintf("close-when-%d", when))
+	if err != nil {
+		return err
+	}
+	if A2 != nil {
+		_ = A2.Orbit.Close()
+	}
+	_ = B.Orbit.Close()
+	if sp.Mem && memDirOnDisk() {
+		out.Direct = append(out.Direct, c18Direct{Sig: "memory:on-disk", What: "an instance on " + memDir + " left a directory of that name in the working directory", Case: map[string]interface{}{}})
+	}
 	return nil
 }
 
@@ -1067,7 +1984,12 @@ func c18InstanceClose(r *Run, sp c18Spec, out *c18Result) error {
 	in := sim.NewInterner()
 	time.Sleep(30 * time.Millisecond)
 	before := goroutineIDs()
-	A, err := env.NewReplica(scenCounter*100, label)
+	var A *sim.Replica
+	if sp.Mem {
+		A, err = memReplica(env, scenCounter*100, label)
+	} else {
+		A, err = env.NewReplica(scenCounter*100, label)
+	}
 	if err != nil {
 		return err
 	}
@@ -1078,7 +2000,14 @@ func c18InstanceClose(r *Run, sp c18Spec, out *c18Result) error {
 	acked := map[string][]string{}
 	for k := 0; k < sp.NDB; k++ {
 		typ := types[r.Rng.Intn(3)]
-		st, err := A.Orbit.Create(ctx, fmt.Sprintf("db-%s-%d", label, k), typ, &orbitdb.CreateDBOptions{AccessController: acBoth(A)})
+		cfg := c18Cfg{Repl: true, Mem: sp.Mem}
+		if k < len(sp.Cfgs) {
+			cfg = sp.Cfgs[k]
+		}
+		name := fmt.Sprintf("db-%s-%d", label, k)
+		st, err := withMaxHistory(A.Orbit, map[bool]int{true: 2, false: 0}[cfg.Limited], func() (iface.Store, error) {
+			return A.Orbit.Create(ctx, name, typ, cfg.dbOpts(0, acBoth(A)))
+		})
 		if err != nil {
 			return err
 		}
@@ -1094,7 +2023,43 @@ func c18InstanceClose(r *Run, sp c18Spec, out *c18Result) error {
 	extra := map[string]interface{}{"databases": sp.NDB, "variant": sp.Variant}
 	var classes []int
 	var msgs []string
+	when := whenInstance
+	gate := newStuckGate()
+	defer gate.free()
 	switch sp.Variant {
+	case "stuckfetch":
+		// every database (whatever its configuration) has a LoadMoreFrom running whose workers
+		// wait for a block that exists nowhere
+		when = whenInstanceStuck
+		A.API.SetGate(gate.fetch)
+		defer A.API.SetGate(nil)
+		var blocked []string
+		var stubs [][]ipfslog.Entry
+		for range stores {
+			c := fabricatedCid(r)
+			blocked = append(blocked, c.String())
+			stubs = append(stubs, []ipfslog.Entry{&entry.Entry{Hash: c}})
+		}
+		gate.set(blocked, nil)
+		var inflight []chan callRes
+		for k, st := range stores {
+			st, stub := st, stubs[k]
+			inflight = append(inflight, goCall(func() error { st.LoadMoreFrom(ctx, 10, stub); return nil }))
+		}
+		for _, st := range stores {
+			if !gate.waitStuckN(st, 1, 5*time.Second) {
+				return fmt.Errorf("iclose/stuckfetch: the fetch did not get stuck (replicator %+v)", sim.ReplState(st))
+			}
+		}
+		classes, msgs = closeMany(sp.Times, sp.Concurrent, A.Orbit.Close)
+		for k, ch := range inflight {
+			ires := awaitCall(ch, leakBudget)
+			cfg := c18Cfg{Repl: true, Mem: sp.Mem}
+			if k < len(sp.Cfgs) {
+				cfg = sp.Cfgs[k]
+			}
+			out.addAfter(opInflightLoadMoreFrom, ires.cls, ires.msg, map[string]interface{}{"during": "instance Close", "config": cfg})
+		}
 	case "midwrite":
 		g := sim.TheHooks.Park("store.after_persist", "", 1)
 		type wr struct {
@@ -1127,7 +2092,9 @@ func c18InstanceClose(r *Run, sp c18Spec, out *c18Result) error {
 		classes, msgs = closeMany(sp.Times, sp.Concurrent, A.Orbit.Close)
 	}
 	leaks := settleLeaks(before, leakBudget)
-	out.addClose(sp, whenInstance, sp.Times, sp.Concurrent, leaks, classes, msgs, extra)
+	out.addClose(sp, when, sp.Times, sp.Concurrent, leaks, classes, msgs, extra)
+	gate.free()
+	A.API.SetGate(nil)
 	A2, err := out.reopenCheck(env, A, label, addrs, acked, in, "instance-close")
 	if err != nil {
 		return err
@@ -1137,7 +2104,15 @@ func c18InstanceClose(r *Run, sp c18Spec, out *c18Result) error {
 	}
 	c, m := callClass(20*time.Second, A2.Orbit.Close)
 	leaks = settleLeaks(before, leakBudget)
-	out.addClose(sp, whenInstance, 1, false, leaks, []int{c}, []string{m}, map[string]interface{}{"note": "close of the reopened instance (stores loaded, not closed individually)"})
+	// (the reopened stores are opened with the default options)
+	var recfgs []c18Cfg
+	for range addrs {
+		recfgs = append(recfgs, c18Cfg{Repl: true, Mem: sp.Mem})
+	}
+	out.addCloseCfg(recfgs, whenInstance, 1, false, leaks, []int{c}, []string{m}, map[string]interface{}{"note": "close of the reopened instance (stores loaded, not closed individually)"})
+	if sp.Mem && memDirOnDisk() {
+		out.Direct = append(out.Direct, c18Direct{Sig: "memory:on-disk", What: "an instance on " + memDir + " left a directory of that name in the working directory", Case: map[string]interface{}{}})
+	}
 	return nil
 }
 
@@ -1193,6 +2168,44 @@ type sibling struct {
 	typ    string
 	intact bool
 	why    string
+	role   string // same-root sibling: parent | deep | child
+}
+
+// sameRootTrio: the addresses of three databases under the manifest root of `name`: Open accepts
+// any path below a manifest root, so these are three databases (three addresses, log ids,
+// topics, cache directories) with the same type and write list.  The child's cache directory
+// <dir>/R/<name>/sub lies inside the parent's <dir>/R/<name>.
+func sameRootTrio(ctx context.Context, A *sim.Replica, name, typ string) (map[string]string, error) {
+	pa, err := A.Orbit.DetermineAddress(ctx, name, typ, &orbitdb.DetermineAddressOptions{AccessController: acBoth(A)})
+	if err != nil {
+		return nil, err
+	}
+	R := pa.GetRoot().String()
+	return map[string]string{"parent": pa.String(), "deep": "/orbitdb/" + R + "/archive/" + name, "child": "/orbitdb/" + R + "/" + name + "/sub"}, nil
+}
+
+// openRole opens (or, for the parent, creates) one database of a same-root trio.
+func openRole(ctx context.Context, A *sim.Replica, trio map[string]string, role, name, typ string, opts *orbitdb.CreateDBOptions) (iface.Store, error) {
+	if role == "parent" {
+		opts.AccessController = acBoth(A)
+		return A.Orbit.Create(ctx, name, typ, opts)
+	}
+	return A.Orbit.Open(ctx, trio[role], opts)
+}
+
+// ownFiles: the number of files (not directories) directly in p; -1 if p does not exist.
+func ownFiles(p string) int {
+	es, err := os.ReadDir(p)
+	if err != nil {
+		return -1
+	}
+	n := 0
+	for _, e := range es {
+		if !e.IsDir() {
+			n++
+		}
+	}
+	return n
 }
 
 func c18Drop(r *Run, sp c18Spec, out *c18Result) error {
@@ -1209,21 +2222,17 @@ func c18Drop(r *Run, sp c18Spec, out *c18Result) error {
 	si := segInterner{sim.NewInterner()}
 	time.Sleep(30 * time.Millisecond)
 	before := goroutineIDs()
-	A, err := env.NewReplica(scenCounter*100, label)
+	var A *sim.Replica
+	if sp.Mem {
+		A, err = memReplica(env, scenCounter*100, label)
+	} else {
+		A, err = env.NewReplica(scenCounter*100, label)
+	}
 	if err != nil {
 		return err
 	}
 	s := &Scen{Env: env, Reps: []*sim.Replica{A}, Canon: sim.NewCanon(), Label: label}
 	types := []string{"eventlog", "keyvalue", "docstore"}
-	X, err := A.Orbit.Create(ctx, "x-"+label, sp.Type, &orbitdb.CreateDBOptions{AccessController: acBoth(A)})
-	if err != nil {
-		return err
-	}
-	for i := 0; i < sp.Writes; i++ {
-		if err := writeOp(r, s, X, i); err != nil {
-			return err
-		}
-	}
 	// siblings: other names, and one with the SAME name but another manifest (other root)
 	var sibs []*sibling
 	for k := 0; k < sp.NDB; k++ {
@@ -1235,7 +2244,8 @@ func c18Drop(r *Run, sp c18Spec, out *c18Result) error {
 			typ = sp.Type
 			ac = &accesscontroller.CreateAccessControllerOptions{Access: map[string][]string{"write": {A.Orbit.Identity().ID, "someone-else"}}}
 		}
-		st, err := A.Orbit.Create(ctx, name, typ, &orbitdb.CreateDBOptions{AccessController: ac})
+		// siblings alternate between replicating and not
+		st, err := A.Orbit.Create(ctx, name, typ, c18Cfg{Repl: k%2 == 0}.dbOpts(0, ac))
 		if err != nil {
 			return fmt.Errorf("create sibling %d: %w", k, err)
 		}
@@ -1247,20 +2257,82 @@ func c18Drop(r *Run, sp c18Spec, out *c18Result) error {
 		h, _ := st.Cache().Get(ctx, datastore.NewKey("_localHeads"))
 		sibs = append(sibs, &sibling{st: st, addr: st.Address().String(), acked: c18Hashes(st), heads: h, cdir: cacheDirOf(A.Dir, st), typ: typ})
 	}
+	// siblings that share the manifest root with the database that is dropped
+	var trio map[string]string
+	if sp.Shape != "" {
+		if trio, err = sameRootTrio(ctx, A, "x-"+label, sp.Type); err != nil {
+			return err
+		}
+		for k, role := range []string{"child", "deep", "parent"} {
+			if role == sp.Shape {
+				continue
+			}
+			st, err := openRole(ctx, A, trio, role, "x-"+label, sp.Type, c18Cfg{Repl: k%2 == 0}.dbOpts(0, nil))
+			if err != nil {
+				return fmt.Errorf("same-root sibling %s (%s): %w", role, trio[role], err)
+			}
+			for i := 0; i < 1+r.Rng.Intn(3); i++ {
+				if err := writeOp(r, s, st, 700+100*k+i); err != nil {
+					return fmt.Errorf("write to same-root sibling %s: %w", role, err)
+				}
+			}
+			h, _ := st.Cache().Get(ctx, datastore.NewKey("_localHeads"))
+			sibs = append(sibs, &sibling{st: st, addr: st.Address().String(), acked: c18Hashes(st), heads: h, cdir: cacheDirOf(A.Dir, st), typ: sp.Type, role: role})
+		}
+	}
+	// the database that is dropped: created last, so that every go-orbit-db goroutine that
+	// appears from here on is its own
+	time.Sleep(30 * time.Millisecond)
+	beforeX := goroutineIDs()
+	X, err := withMaxHistory(A.Orbit, sp.MaxHist, func() (iface.Store, error) {
+		if sp.Shape != "" {
+			return openRole(ctx, A, trio, sp.Shape, "x-"+label, sp.Type, sp.dbOpts(nil))
+		}
+		return A.Orbit.Create(ctx, "x-"+label, sp.Type, sp.dbOpts(acBoth(A)))
+	})
+	if err != nil {
+		return err
+	}
+	if sp.Prep != "never" {
+		for i := 0; i < sp.Writes; i++ {
+			if err := writeOp(r, s, X, i); err != nil {
+				return err
+			}
+		}
+	}
 	xdir := cacheDirOf(A.Dir, X)
 	xaddr := X.Address().String()
-	extra := map[string]interface{}{"variant": sp.Variant, "type": sp.Type, "siblings": len(sibs)}
+	extra := map[string]interface{}{"variant": sp.Variant, "siblings": len(sibs)}
+	sp.describe(extra)
 	var dcls int
 	var dmsg string
+	gate := newStuckGate()
+	defer gate.free()
 	switch sp.Variant {
 	case "open":
 		dcls, dmsg = callClass(15*time.Second, X.Drop)
+	case "stuckfetch":
+		// a LoadMoreFrom whose workers wait for a block that exists nowhere is running when Drop is called
+		A.API.SetGate(gate.fetch)
+		defer A.API.SetGate(nil)
+		c := fabricatedCid(r)
+		gate.set([]string{c.String()}, nil)
+		stub := []ipfslog.Entry{&entry.Entry{Hash: c}}
+		inflight := goCall(func() error { X.LoadMoreFrom(ctx, 10, stub); return nil })
+		if !gate.waitStuck(X, 5*time.Second) {
+			return fmt.Errorf("drop/stuckfetch: the fetch did not get stuck (replicator %+v)", sim.ReplState(X))
+		}
+		dcls, dmsg = callClass(15*time.Second, X.Drop)
+		ires := awaitCall(inflight, leakBudget)
+		d := sp.opDescr()
+		d["during"] = "Drop"
+		out.addAfter(opInflightLoadMoreFrom, ires.cls, ires.msg, d)
 	case "closed":
 		if c, m := callClass(10*time.Second, X.Close); c != clsOK {
 			out.addAfter(opClose, c, m, map[string]interface{}{"note": "close before drop"})
 		}
 		dcls, dmsg = callClass(15*time.Second, X.Drop)
-		out.addAfter(opDrop, dcls, dmsg, map[string]interface{}{"type": sp.Type})
+		out.addAfter(opDrop, dcls, dmsg, sp.opDescr())
 	case "stale":
 		// the handle is closed, the database is opened again on the same instance, and the
 		// OLD handle is dropped
@@ -1276,7 +2348,7 @@ func c18Drop(r *Run, sp c18Spec, out *c18Result) error {
 			return fmt.Errorf("reopen before stale drop: %s %s", clsName[c], m)
 		}
 		dcls, dmsg = callClass(opWatchdog, X.Drop)
-		out.addAfter(opDropStale, dcls, dmsg, map[string]interface{}{"type": sp.Type})
+		out.addAfter(opDropStale, dcls, dmsg, sp.opDescr())
 		if dcls == clsHang {
 			// the instance's cache manager is wedged (every later Load/Close of a cache on this
 			// instance blocks, the directory stays locked): record and abandon the instance
@@ -1289,7 +2361,7 @@ func c18Drop(r *Run, sp c18Spec, out *c18Result) error {
 	case "twice":
 		dcls, dmsg = callClass(15*time.Second, X.Drop)
 		c2, m2 := callClass(15*time.Second, X.Drop)
-		out.addAfter(opDropAfterDrop, c2, m2, map[string]interface{}{"type": sp.Type})
+		out.addAfter(opDropAfterDrop, c2, m2, sp.opDescr())
 	case "midwrite":
 		g := sim.TheHooks.Park("store.after_persist", "", 1)
 		type wr struct {
@@ -1308,12 +2380,21 @@ func c18Drop(r *Run, sp c18Spec, out *c18Result) error {
 		dcls, dmsg = callClass(15*time.Second, X.Drop)
 		g.Release()
 		w := <-wres
-		out.addAfter(opInflightDropWrite, w.cls, w.msg, map[string]interface{}{"type": sp.Type})
+		out.addAfter(opInflightDropWrite, w.cls, w.msg, sp.opDescr())
 	}
 	extra["drop_result"] = dmsg
-	// the dropped database's directory
-	_, statErr := os.Stat(xdir)
-	removed := os.IsNotExist(statErr)
+	// nothing of the dropped store is left while the instance is still open (the fresh handle
+	// of the stale variant belongs to the same database and is closed by now)
+	{
+		leaks := settleLeaks(beforeX, leakBudget)
+		out.addClose(sp, whenDropStuck, 1, false, leaks, []int{dcls}, []string{dmsg}, map[string]interface{}{"note": "right after Drop, instance still open", "variant": sp.Variant, "config": sp.cfg()})
+	}
+	gate.free()
+	A.API.SetGate(nil)
+	// the dropped database's directory: gone - or, when the cache directory of another database
+	// lies inside it (same manifest root, longer path), at least without a file of its own
+	removed := ownFiles(xdir) <= 0
+	extra["dropped_dir_own_files_left"] = ownFiles(xdir)
 	// siblings, live: cache key, directory, still writable
 	for _, sb := range sibs {
 		sb.intact = true
@@ -1321,7 +2402,7 @@ func c18Drop(r *Run, sp c18Spec, out *c18Result) error {
 		if err != nil || !bytes.Equal(h, sb.heads) {
 			sb.intact, sb.why = false, fmt.Sprintf("cache key _localHeads changed (err=%v)", err)
 		}
-		if dirFiles(sb.cdir) <= 0 {
+		if !sp.Mem && dirFiles(sb.cdir) <= 0 {
 			sb.intact, sb.why = false, "cache directory gone or empty"
 		}
 		if got := c18Hashes(sb.st); len(got) != len(sb.acked) {
@@ -1359,32 +2440,171 @@ func c18Drop(r *Run, sp c18Spec, out *c18Result) error {
 		addrs = append(addrs, sb.addr)
 		ack[sb.addr] = sb.acked
 	}
-	nBefore := len(out.Cases)
-	A2, err := out.reopenCheck(env, A, label, addrs, ack, in, "sibling-after-drop")
-	if err != nil {
-		return err
-	}
-	for i, cse := range out.Cases[nBefore:] {
-		if cse.Descr["sig"] != nil {
-			sibs[i].intact, sibs[i].why = false, "entries missing after reopen"
+	if !sp.Mem {
+		// (the siblings of an instance on ":memory:" do not outlive it: they were checked live)
+		nBefore := len(out.Cases)
+		A2, err := out.reopenCheck(env, A, label, addrs, ack, in, "sibling-after-drop")
+		if err != nil {
+			return err
 		}
-	}
-	if A2 != nil {
-		_ = A2.Orbit.Close()
+		var keep []c18Case
+		for i, cse := range out.Cases[nBefore:] {
+			if cse.Descr["sig"] != nil {
+				sibs[i].intact, sibs[i].why = false, fmt.Sprintf("entries missing after reopen (acked %v, present %v, %v)", cse.Descr["acked"], cse.Descr["present"], cse.Descr["message"])
+			}
+			// a sibling under the same manifest root: what becomes of it is the business of the
+			// CDrop case (whose model knows which directories a Drop takes along), as for the alias
+			if sibs[i].role == "" {
+				keep = append(keep, cse)
+			}
+		}
+		out.Cases = append(out.Cases[:nBefore], keep...)
+		if A2 != nil {
+			_ = A2.Orbit.Close()
+		}
+	} else if memDirOnDisk() {
+		out.Direct = append(out.Direct, c18Direct{Sig: "memory:on-disk", What: "an instance on " + memDir + " left a directory of that name in the working directory", Case: map[string]interface{}{}})
 	}
 	settleLeaks(before, leakBudget)
 	for k, sb := range sibs {
 		d := map[string]interface{}{"kind": "drop", "variant": sp.Variant, "dropped": xaddr, "sibling": sb.addr, "drop_outcome": clsName[dcls], "drop_message": dmsg,
-			"dropped_dir_removed": removed, "dropped_reopens_empty": empty, "reopen": emsg, "sibling_intact": sb.intact, "why": sb.why, "same_name": k == 0}
-		if !sb.intact {
+			"dropped_dir_removed": removed, "dropped_reopens_empty": empty, "reopen": emsg, "sibling_intact": sb.intact, "why": sb.why, "same_name": k == 0, "config": sp.cfg()}
+		if sb.role != "" {
+			d["same_root"] = fmt.Sprintf("dropped: %s, sibling: %s", sp.Shape, sb.role)
+		}
+		if !sb.intact && sp.Shape == "parent" && sb.role == "child" {
+			// the sibling's cache directory lies inside the dropped database's
+			d["sig"] = "drop:nested-sibling-destroyed"
+		} else if !sb.intact {
 			d["sig"] = "drop:sibling-damaged"
 		} else if dcls != clsOK {
 			d["sig"] = "drop:" + clsName[dcls]
 		} else if !empty || !removed {
 			d["sig"] = "drop:not-empty"
 		}
-		out.add(coqCDrop(si, A.Dir, X.Address(), sb.st.Address(), true, dcls, removed && empty, sb.intact), d, true)
+		out.add(coqCDrop(sp.cfg(), si, A.Dir, X.Address(), sb.st.Address(), true, dcls, removed && empty, sb.intact), d, true)
 		out.count("drop:" + sp.Variant)
+	}
+	return nil
+}
+
+// ---- scenario: Close of one of several databases that share a manifest root ----
+
+// c18SameRoot: parent /orbitdb/R/<name>, deep /orbitdb/R/archive/<name> and child
+// /orbitdb/R/<name>/sub are open on one instance and written to; one of them (Shape) is closed.
+// The two others must still accept writes (their caches are their own: the cache key is root +
+// FULL path); then the instance is closed, the directory reopened, and each of the three must
+// load everything it acknowledged.
+func c18SameRoot(r *Run, sp c18Spec, out *c18Result) error {
+	ctx := context.Background()
+	env, err := sharedEnv()
+	if err != nil {
+		return err
+	}
+	scenCounter++
+	sim.TheHooks.Reset()
+	env.Net.ResetTraffic(false)
+	label := fmt.Sprintf("r%d", scenCounter)
+	in := sim.NewInterner()
+	si := segInterner{sim.NewInterner()}
+	time.Sleep(30 * time.Millisecond)
+	before := goroutineIDs()
+	var A *sim.Replica
+	if sp.Mem {
+		A, err = memReplica(env, scenCounter*100, label)
+	} else {
+		A, err = env.NewReplica(scenCounter*100, label)
+	}
+	if err != nil {
+		return err
+	}
+	s := &Scen{Env: env, Reps: []*sim.Replica{A}, Canon: sim.NewCanon(), Label: label}
+	name := "demo-" + label
+	trio, err := sameRootTrio(ctx, A, name, sp.Type)
+	if err != nil {
+		return err
+	}
+	roles := []string{"parent", "deep", "child"}
+	r.Rng.Shuffle(len(roles), func(i, j int) { roles[i], roles[j] = roles[j], roles[i] }) // the order of opening varies
+	stores := map[string]iface.Store{}
+	acked := map[string][]string{}
+	cfgs := sp.Cfgs
+	for k, role := range roles {
+		cfg := c18Cfg{Repl: true, Mem: sp.Mem}
+		if k < len(cfgs) {
+			cfg = cfgs[k]
+		}
+		st, err := openRole(ctx, A, trio, role, name, sp.Type, cfg.dbOpts(0, nil))
+		if err != nil {
+			return fmt.Errorf("same-root %s (%s): %w", role, trio[role], err)
+		}
+		stores[role] = st
+		for i := 0; i < sp.Writes; i++ {
+			if err := writeOp(r, s, st, 100*k+i); err != nil {
+				return fmt.Errorf("write to %s: %w", role, err)
+			}
+		}
+		acked[trio[role]] = c18Hashes(st)
+	}
+	closed := stores[sp.Shape]
+	var ccls int
+	var cmsg string
+	if sp.Variant == "drop-then-write" {
+		ccls, cmsg = callClass(15*time.Second, closed.Drop)
+		delete(acked, trio[sp.Shape])
+	} else {
+		ccls, cmsg = callClass(10*time.Second, closed.Close)
+	}
+	if ccls != clsOK {
+		out.addAfter(opClose, ccls, cmsg, map[string]interface{}{"note": "close of the " + sp.Shape + " of a same-root trio"})
+	}
+	for _, role := range []string{"parent", "deep", "child"} {
+		if role == sp.Shape {
+			continue
+		}
+		st := stores[role]
+		wc, wm := callClass(10*time.Second, func() error { return c18Write(r, st, 900) })
+		d := map[string]interface{}{"kind": "sibling", "closed": trio[sp.Shape], "closed_role": sp.Shape, "written": trio[role], "written_role": role,
+			"write_outcome": clsName[wc], "message": wm, "how": sp.Variant, "memory": sp.Mem}
+		if wc == clsOK {
+			acked[trio[role]] = c18Hashes(st)
+		} else {
+			d["sig"] = "sibling:write-after-close-of-same-root-sibling:" + clsName[wc]
+		}
+		if sp.Variant != "drop-then-write" {
+			// (after a Drop the sibling is judged by the drop scenarios, whose model knows which
+			// directories a Drop takes along)
+			out.add(fmt.Sprintf("(CSibling %s %s %s %s %s %s)", sim.CoqListN(si.dir(A.Dir)),
+				sim.CoqN(si.in.ID(closed.Address().GetRoot().String())), sim.CoqList(si.segs(closed.Address().GetPath())),
+				sim.CoqN(si.in.ID(st.Address().GetRoot().String())), sim.CoqList(si.segs(st.Address().GetPath())), sim.CoqN(wc)), d, true)
+			out.count("sibling:" + sp.Shape + "->" + role)
+		}
+	}
+	// instance close: nothing left; the directory reopens with everything acknowledged
+	c, m := callClass(20*time.Second, A.Orbit.Close)
+	leaks := settleLeaks(before, leakBudget)
+	var ccfgs []c18Cfg
+	for k := range roles {
+		cfg := c18Cfg{Repl: true, Mem: sp.Mem}
+		if k < len(cfgs) {
+			cfg = cfgs[k]
+		}
+		ccfgs = append(ccfgs, cfg)
+	}
+	out.addCloseCfg(ccfgs, whenInstance, 1, false, leaks, []int{c}, []string{m}, map[string]interface{}{"note": "instance close, three databases under one manifest root, the " + sp.Shape + " closed before", "variant": sp.Variant})
+	if sp.Variant == "drop-then-write" {
+		return nil
+	}
+	var addrs []string
+	for _, role := range []string{"parent", "deep", "child"} {
+		addrs = append(addrs, trio[role])
+	}
+	A2, err := out.reopenCheck(env, A, label, addrs, acked, in, "same-root-after-close-of-"+sp.Shape)
+	if err != nil {
+		return err
+	}
+	if A2 != nil {
+		_ = A2.Orbit.Close()
 	}
 	return nil
 }
@@ -1394,8 +2614,8 @@ type addrLike interface {
 	GetPath() string
 }
 
-func coqCDrop(si segInterner, dir string, dropped, sib addrLike, opened bool, dcls int, droppedEmpty, siblingIntact bool) string {
-	return fmt.Sprintf("(CDrop %s %s %s %s %s %s %s %s %s)", sim.CoqListN(si.dir(dir)),
+func coqCDrop(cfg c18Cfg, si segInterner, dir string, dropped, sib addrLike, opened bool, dcls int, droppedEmpty, siblingIntact bool) string {
+	return fmt.Sprintf("(CDrop %s %s %s %s %s %s %s %s %s %s)", cfg.coq(), sim.CoqListN(si.dir(dir)),
 		sim.CoqN(si.in.ID(dropped.GetRoot().String())), sim.CoqList(si.segs(dropped.GetPath())),
 		sim.CoqN(si.in.ID(sib.GetRoot().String())), sim.CoqList(si.segs(sib.GetPath())),
 		sim.CoqBool(opened), sim.CoqN(dcls), sim.CoqBool(droppedEmpty), sim.CoqBool(siblingIntact))
@@ -1502,7 +2722,7 @@ func c18Alias(r *Run, sp c18Spec, out *c18Result) error {
 	} else if dcls != clsOK || ocls >= clsPanic {
 		d["sig"] = "alias:" + clsName[dcls]
 	}
-	out.add(coqCDrop(si, A.Dir, dropped, vaddr, ocls == clsOK, dcls, true, intact), d, true)
+	out.add(coqCDrop(sp.cfg(), si, A.Dir, dropped, vaddr, ocls == clsOK, dcls, true, intact), d, true)
 	out.count("alias:" + sp.Variant)
 	return nil
 }
@@ -1516,20 +2736,13 @@ func callClassIgnore(f func() error) int {
 
 func c18AfterClose(r *Run, sp c18Spec, out *c18Result) error {
 	ctx := context.Background()
-	s, err := NewScen(2, sp.Type, &ScenOpts{NoOpen: true})
+	s, A, B, stB, addr, err := c18Pair(sp)
 	if err != nil {
 		return err
 	}
-	A, B := s.Reps[0], s.Reps[1]
-	stB, err := B.Orbit.Create(ctx, "db-"+s.Label, sp.Type, &orbitdb.CreateDBOptions{AccessController: acBoth(A, B)})
-	if err != nil {
-		return err
-	}
-	addr := stB.Address().String()
-	s.Addr = addr
 	time.Sleep(30 * time.Millisecond)
 	before := goroutineIDs()
-	stA, err := A.Orbit.Open(ctx, addr, &orbitdb.CreateDBOptions{})
+	stA, err := c18Open(sp, A, addr)
 	if err != nil {
 		return err
 	}
@@ -1558,7 +2771,7 @@ func c18AfterClose(r *Run, sp c18Spec, out *c18Result) error {
 			out.addAfter(opClose, c, m, map[string]interface{}{"note": "first"})
 		}
 	}
-	ex := map[string]interface{}{"type": sp.Type, "closed": sp.Variant}
+	ex := map[string]interface{}{"type": sp.Type, "closed": sp.Variant, "config": sp.cfg()}
 	type opf struct {
 		op int
 		f  func() error
@@ -1694,7 +2907,7 @@ func c18Legacy(r *Run, sp c18Spec, out *c18Result) error {
 	A := s.Reps[0]
 	time.Sleep(30 * time.Millisecond)
 	before := goroutineIDs()
-	st, err := A.Orbit.Create(ctx, "db-"+s.Label, sp.Type, &orbitdb.CreateDBOptions{AccessController: acBoth(A)})
+	st, err := A.Orbit.Create(ctx, "db-"+s.Label, sp.Type, sp.dbOpts(acBoth(A)))
 	if err != nil {
 		return err
 	}
@@ -1829,6 +3042,7 @@ func gatedLoad(before map[int]bool, f func() error) func() error {
 	return func() error {
 		g := sim.TheHooks.Park("replicator.before_slot", "", 0)
 		defer g.Release()
+		queued0 := sim.TheHooks.Count("replicator.load_queued")
 		done := make(chan error, 1)
 		go func() {
 			defer func() {
@@ -1838,7 +3052,14 @@ func gatedLoad(before map[int]bool, f func() error) func() error {
 			}()
 			done <- f()
 		}()
-		if g.WaitArrived(500 * time.Millisecond) {
+		// once the request has queued its items every worker it will ever have has been started
+		// (none gets past the gate), and its context binder exists: when that binder is gone the
+		// context is cancelled, whether or not a worker has reached the gate yet
+		deadline := time.Now().Add(500 * time.Millisecond)
+		for sim.TheHooks.Count("replicator.load_queued") == queued0 && time.Now().Before(deadline) {
+			time.Sleep(2 * time.Millisecond)
+		}
+		if sim.TheHooks.Count("replicator.load_queued") > queued0 {
 			waitNoSite(before, "stores/replicator.(*replicator).rootContextWithCancel", time.Second)
 		}
 		g.Release()
